@@ -654,8 +654,10 @@ where
         let mut transcripts = vec![];
         let mut vgens = vec![];
         let mut vcommit = vec![];
+        let mut vstm = vec![];
         let mut unavailable: Option<String> = None;
         verif_log::take();
+        verif_log::enable(true);
         for vm in v["vmembers"].as_array().unwrap() {
             if let Some(pi) = vm["proof"].as_u64() {
                 match pool.get(pi as usize).and_then(|p| p.as_ref()) {
@@ -673,6 +675,11 @@ where
                             vgens.push(gens_json::<P>(&params));
                         }
                         vcommit.push(Value::Array(st.commitments.iter().map(P::describe).collect()));
+                        vstm.push(json!({
+                            "H": hex(params.h_base_compressed().as_fixed_bytes()),
+                            "Gb": params.g_bases_compressed().iter().map(|c| hex(c.as_fixed_bytes())).collect::<Vec<_>>(),
+                            "bits": params.bit_length(), "cap": params.max_aggregation_factor(), "T": params.extension_degree() as usize,
+                        }));
                         statements.push(st);
                     },
                     Err(e) => {
@@ -685,7 +692,9 @@ where
                 transcripts.push(make_transcript(&vm["ctx"]));
             }
         }
+        verif_log::enable(false);
         if let Some(u) = unavailable {
+            verif_log::take();
             rec["result"] = json!(format!("unavailable:{}", u));
             out_verifies.push(rec);
             continue;
@@ -698,6 +707,7 @@ where
                 .collect(),
         );
         rec["commitments"] = Value::Array(vcommit);
+        rec["stmts"] = Value::Array(vstm);
         if !vgens.is_empty() {
             rec["gens"] = Value::Array(vgens);
         }
